@@ -316,6 +316,14 @@ fn history(family: &str, seed: u64, idx: usize, thorough: bool, out: &mut impl W
             cfg.meshes = cfg_rng.chance(1, 2);
             cfg.audios = cfg_rng.chance(1, 2);
         }
+        if family == "join" {
+            cfg.registered.push(Ty::HMat);
+            cfg.registered.push(Ty::HMesh);
+            // every on/off combination of the three switches, per peer (mostly on)
+            cfg.materials = cfg_rng.chance(4, 5);
+            cfg.meshes = cfg_rng.chance(4, 5);
+            cfg.audios = cfg_rng.chance(4, 5);
+        }
         if family == "asset" {
             cfg.registered.push(Ty::HMat);
             cfg.registered.push(Ty::HMesh);
@@ -375,7 +383,9 @@ fn history(family: &str, seed: u64, idx: usize, thorough: bool, out: &mut impl W
                         let h = c.fresh();
                         let ncomp = c.rng.below(3);
                         let comps: Vec<CVal> = (0..ncomp).map(|_| { let t = *c.rng.pick(&SIMPLE_TYS); small_val(&mut c.rng, t) }).collect();
-                        c.s.spawn(p, h, true, &comps, None);
+                        // sometimes under an existing synchronized entity (a later despawn of that parent is not recursive)
+                        let parent = if !c.live.is_empty() && c.rng.chance(1, 3) { Some(*c.rng.pick(&c.live.clone())) } else { None };
+                        c.s.spawn(p, h, true, &comps, parent);
                         c.live.push(h);
                     } else {
                         let i = c.rng.below(c.live.len());
@@ -516,7 +526,7 @@ fn history(family: &str, seed: u64, idx: usize, thorough: bool, out: &mut impl W
         "asset" => {
             const AK: [AKind; 4] = [AKind::Mesh, AKind::Image, AKind::Audio, AKind::Material];
             // (kind, uuid, last writer, settled: a quiescent drain happened since that writer's last publication)
-            let mut published: Vec<(AKind, uuid::Uuid, u32, bool)> = vec![];
+            let mut published: Vec<(AKind, uuid::Uuid, u32, bool, u64)> = vec![];
             for _ in 0..rounds {
                 let p = c.any_peer();
                 if published.is_empty() || c.rng.chance(1, 2) {
@@ -524,17 +534,18 @@ fn history(family: &str, seed: u64, idx: usize, thorough: bool, out: &mut impl W
                     let id = uuid::Uuid::from_bytes(c.rng.bytes(16).try_into().unwrap());
                     let n = c.rng.below(1000) as u64;
                     c.s.asset_insert(p, kind, Some(id), n);
-                    published.push((kind, id, p, false));
+                    published.push((kind, id, p, false, n));
                 } else {
                     // overwrite under the same uuid: by the peer that wrote it last at any time, by any other
                     // peer once the previous content has settled everywhere (one writer per epoch)
                     let k = c.rng.below(published.len());
-                    let (kind, id, owner, settled) = published[k];
+                    let (kind, id, owner, settled, last_n) = published[k];
                     let w = if settled && c.rng.chance(2, 3) { p } else { owner };
-                    let n = 1000 + c.rng.below(1000) as u64;
+                    // sometimes the same content again (the application touches the asset without changing it)
+                    let n = if w == owner && c.rng.chance(1, 4) { last_n } else { 1000 + c.rng.below(1000) as u64 };
                     c.s.trace.push(json!({"ev":"overwrite","peer":w,"prev":owner}));
                     c.s.asset_insert(w, kind, Some(id), n);
-                    published[k] = (kind, id, w, false);
+                    published[k] = (kind, id, w, false, n);
                 }
                 if c.rng.chance(1, 2) {
                     c.random_steps();
@@ -705,6 +716,133 @@ fn history(family: &str, seed: u64, idx: usize, thorough: bool, out: &mut impl W
                 c.s.connect(id);
                 let ok = c.wait_connected(id, 60);
                 c.s.trace.push(json!({"ev":"late_join","peer":id,"ok":ok}));
+            }
+        }
+        "join" => {
+            const TYS: [Ty; 4] = [Ty::A, Ty::B, Ty::E, Ty::V];
+            const AK: [AKind; 4] = [AKind::Mesh, AKind::Image, AKind::Audio, AKind::Material];
+            let mut assets: Vec<(AKind, uuid::Uuid)> = vec![];
+            // one operation of the current writer: any of the things a session is built from
+            fn op(c: &mut Ctx, w: u32, assets: &mut Vec<(AKind, uuid::Uuid)>) {
+                match c.rng.below(10) {
+                    0 | 1 => {
+                        let h = c.fresh();
+                        let mut comps: Vec<CVal> = vec![];
+                        for t in TYS {
+                            if c.rng.chance(1, 3) {
+                                comps.push(small_val(&mut c.rng, t));
+                            }
+                        }
+                        let parent = if !c.live.is_empty() && c.rng.chance(1, 3) { Some(*c.rng.pick(&c.live.clone())) } else { None };
+                        c.s.spawn(w, h, true, &comps, parent);
+                        c.live.push(h);
+                    }
+                    2 | 3 | 4 => {
+                        if !c.live.is_empty() {
+                            let h = *c.rng.pick(&c.live.clone());
+                            let t = *c.rng.pick(&TYS);
+                            let v = small_val(&mut c.rng, t);
+                            c.s.write(w, h, &v, &[]);
+                        }
+                    }
+                    5 => {
+                        if c.live.len() >= 2 {
+                            let a = *c.rng.pick(&c.live.clone());
+                            let b = *c.rng.pick(&c.live.clone());
+                            if a != b {
+                                c.s.set_parent(w, a, b);
+                            }
+                        }
+                    }
+                    6 => {
+                        if c.live.len() > 2 && c.rng.chance(1, 2) {
+                            let i = c.rng.below(c.live.len());
+                            let h = c.live[i];
+                            if c.s.despawn(w, h) {
+                                c.live.swap_remove(i);
+                            }
+                        }
+                    }
+                    _ => {
+                        if assets.is_empty() || c.rng.chance(1, 2) {
+                            let kind = *c.rng.pick(&AK);
+                            let id = uuid::Uuid::from_bytes(c.rng.bytes(16).try_into().unwrap());
+                            let n = c.rng.below(1000) as u64;
+                            c.s.asset_insert(w, kind, Some(id), n);
+                            assets.push((kind, id));
+                        } else {
+                            let (kind, id) = *c.rng.pick(&assets.clone());
+                            let n = 1000 + c.rng.below(1000) as u64;
+                            c.s.asset_insert(w, kind, Some(id), n);
+                        }
+                    }
+                }
+            }
+            // the session before the join: epochs of one writer each, drained in between
+            for _ in 0..rounds {
+                let w = c.any_peer();
+                c.s.trace.push(json!({"ev":"epoch","writer":w}));
+                for _ in 0..c.rng.range(1, 4) {
+                    op(&mut c, w, &mut assets);
+                    if c.rng.chance(1, 2) {
+                        c.random_steps();
+                    }
+                }
+                let d = c.drain(80);
+                c.s.trace.push(json!({"ev":"drain","quiescent":d.0,"rounds":d.1}));
+            }
+            // the join: one writer keeps changing things while a new client connects and / or an old one returns
+            let w = c.any_peer();
+            let variant = c.rng.below(4);
+            let mut comers: Vec<u32> = vec![];
+            if variant >= 2 && c.nclients >= 1 {
+                // a client leaves, the session goes on without it, then it comes back still holding what it had
+                let cands: Vec<u32> = (1..=c.nclients).filter(|p| *p != w).collect();
+                if !cands.is_empty() {
+                    let x = *c.rng.pick(&cands);
+                    c.s.disconnect(x);
+                    c.s.trace.push(json!({"ev":"left","peer":x}));
+                    c.lockstep(3);
+                    c.s.trace.push(json!({"ev":"epoch","writer":w,"absent":x}));
+                    for _ in 0..c.rng.range(1, 5) {
+                        op(&mut c, w, &mut assets);
+                        if c.rng.chance(1, 2) {
+                            c.random_steps();
+                        }
+                    }
+                    if c.rng.chance(1, 2) {
+                        let d = c.drain(80);
+                        c.s.trace.push(json!({"ev":"drain","quiescent":d.0,"rounds":d.1,"absent":x}));
+                    }
+                    comers.push(x);
+                }
+            }
+            if variant != 2 || comers.is_empty() {
+                let shift = c.rng.below(5);
+                let id = c.s.add_client(cfg_for(family), shift);
+                c.nclients += 1;
+                c.s.describe_peers();
+                comers.push(id);
+            }
+            c.s.trace.push(json!({"ev":"epoch","writer":w,"joining":comers}));
+            for j in comers.clone() {
+                c.s.connect(j);
+                c.s.trace.push(json!({"ev":"join_begin","peer":j,"writer":w}));
+                // the handshake and the snapshot run while the writer goes on
+                for _ in 0..c.rng.below(14) {
+                    for _ in 0..c.rng.below(3) {
+                        op(&mut c, w, &mut assets);
+                    }
+                    c.random_steps();
+                }
+            }
+            for j in comers.clone() {
+                let ok = c.wait_connected(j, 80);
+                c.s.trace.push(json!({"ev":"late_join","peer":j,"ok":ok}));
+            }
+            for _ in 0..c.rng.below(4) {
+                op(&mut c, w, &mut assets);
+                c.random_steps();
             }
         }
         _ => panic!("unknown family {}", family),
